@@ -15,6 +15,10 @@ CLAIMED = {
             "c02_* over Model/Auth.v: the code is sent to the provider only after every browser-side check passed and the token request carries the cookie's verifier / redirect URI; a failed check sends nothing and creates nothing; the login cookie is always cleared; a cookie passes only with the state of the same attempt; another cookie type's ciphertext is rejected (c02_logout_cookie_refuted documents the pre-fix defect, fixed in /repo). The real router + handlers + openid client are driven over the full cross product of query parameters and cookie classes with a PKCE-enforcing fake provider and must agree with the model; a monitor built from the generator's ground truth checks the property on the provider log, store and Set-Cookie headers.",
             "Trusts: Coq kernel; symbolic model (ideal AEAD, fresh atoms) tied by differential; fake provider; ID-token validation is C03's.",
             "5/C02"),
+    "C03": ("Coq theorem: sequential ID-token checker = declarative OIDC conjunction (all tokens, key sets, configurations, times) + fault-lattice differential with real signatures",
+            "c03_accept_iff_all_checks: IDToken.Validate (jws.Verify with the key set, acr rule, jwt.Validate, untrusted-audience rule, early returns preserved) accepts exactly the tokens signed under the first published key with the token's kid using that key's own algorithm, with iss / aud / exp / iat / nbf (skew, truncation) / nonce / sub / sid / acr as the property lists; corollaries: unsigned / alg=none / HS256-over-public-key / wrong key never accepted, strict expiry (c03_epoch_exp_refuted documents the pre-fix jwx quirk, fixed in /repo). 2 330 lattice points (baseline, all single and pair deviations over 15 dimensions) are minted with real RSA / ECDSA / HMAC signatures, run through the real openid.NewTokens with the real keySetMutator, and must agree with the model; the monitor re-derives the verdict from the generator's selectors.",
+            "Trusts: Coq kernel; ideal signatures; jwx v2.1.4 semantics transliterated and tied by the lattice only; JWT parsing not modelled.",
+            "5/C03"),
     "C04": ("Coq theorems over unbounded byte strings (net/url + path.Clean + http.Redirect + validators + WHATWG origin model) + exhaustive small-alphabet differential + Node WHATWG oracle",
             "c04_*: exact language of the redirect regex (source pinned to the compiled code), shape of accepted paths, re-serialisation escapes backslashes/controls for all URL records, and end to end for standalone mode: Canonical / Clean(Canonical) yields the fallback or a Location that the WHATWG model resolves to the request origin, for every parameter; AbsoluteValidator accepts only http(s) URLs whose Go host is the allowed domain or a dot-suffix of it and whose authority text is what a WHATWG parser reads (no backslash / # / userinfo confusion). 4.4 M strings (exhaustive up to length 5 over a 17-symbol alphabet, repo test strings, random) go through the real functions of all three modes and must agree with the model; every emitted non-fallback Location is resolved by Node 20 and must stay on the allowed origin.",
             "Trusts: Coq kernel; transliterations of Go's net/url, path, net/http tied by differential only; WHATWG model validated against Node only, IDNA as a parameter. SSO-server / SSO-proxy modes: proved up to authority agreement; the final origin step is covered by the differential + Node monitor, not by a theorem (partial). Handler call sites other than Canonical/Clean/LoginRelative are not driven.",
